@@ -113,12 +113,16 @@ func Start(t *testing.T, id string) *Run {
 
 func (r *Run) Quick() bool { return r.Tier == "quick" }
 
+// ScaleEnv is the thorough-tier multiplier the driver passes (1 when unset).
+func ScaleEnv() int { return int(envInt("VERIF_SCALE", 1)) }
+
 // N returns the number of cases THIS batch executes when the whole run (all
 // batches) is meant to execute quick resp. thorough cases.
 func (r *Run) N(quick, thorough int) int {
 	total := quick
 	if !r.Quick() {
-		total = thorough
+		// VERIF_SCALE (set by the driver from the property's registration) deepens the thorough tier
+		total = thorough * int(envInt("VERIF_SCALE", 1))
 	}
 	n := total / r.NBatch
 	if r.Batch < total%r.NBatch {
